@@ -74,7 +74,7 @@ Full statement / proved / missing
   goroutine that runs the body.  `C14s_defs_owned`: a micro-step of `g` writes only loaders of `g` (never the environment loader);
   `C14s_defs_isolated`: it changes neither the context objects nor any `Load` answer of a goroutine that does not descend from
   `g`; `C14s_defs_invisible_to_older`: in particular of every OLDER goroutine — the parent, older siblings, their ancestors —
-  at every point of every interleaving.                                                                      **proved**
+  at every point of every interleaving; `C14s_younger_invisible`: over any number of micro-steps of younger goroutines. **proved**
   Atomicity of a micro-step: one call into pcore up to where it calls back the actor, or one deferred function.
 * SECOND TIE — `C14_facts_now` + `C14_facts_*`: the shape table regenerated from px/context.go, internal/context.go,
   internal/runtime.go, threadlocal/gid.go on every run (family `ctxfacts`) equals the shape the model mirrors; it selects
@@ -538,6 +538,16 @@ theorem C14s_defs_invisible_to_older {p : Prog} {c : Cfg} {gh : Ghost} (h : Reac
     · simp [Cfg.init] at hm; subst hm; simp at hms
   · exact C14s_defs_isolated h i g hi b j hj (not_anc_of_lt hg hb) n
 
+/-- the same over ANY number of micro-steps: whatever goroutines younger than `b` do, in any order and interleaved in any way
+    (`YoungerOnly b is c`: every step of the schedule `is` is taken by a goroutine with a larger id), the contexts of `b` keep their
+    state and every `px.Load` through them answers as before — a child, its siblings started later and all their descendants can
+    define whatever they like -/
+theorem C14s_younger_invisible {p : Prog} {c : Cfg} {gh : Ghost} (h : ReachG p c gh) (hn : c ≠ Cfg.init p) (is : List Nat)
+    (b : Gid) (j : CtxId) (hj : CtxOf c b j) (hy : YoungerOnly b is c) (n : String) :
+    (Cfg.steps is c).w.ctxs j = c.w.ctxs j ∧
+    loadEntry (Cfg.steps is c).w.defs (c.w.ctxs j).loader n = loadEntry c.w.defs (c.w.ctxs j).loader n :=
+  younger_invisible is h hn hj hy n
+
 /-- non-vacuity: in `sampleInter` after `sampleSched1` (the parent has forked and gone on, the child has started) goroutine 1 was
     started by goroutine 0, context 1 is installed for goroutine 0, goroutine 1 is at index 1 and is younger -/
 example : ReachG sampleInter (Cfg.steps sampleSched1 (Cfg.init sampleInter)) (ghSteps sampleSched1 (Cfg.init sampleInter) {}) :=
@@ -546,6 +556,17 @@ example : (ghSteps sampleSched1 (Cfg.init sampleInter) {}).par 1 = 0 ∧
     CtxOf (Cfg.steps sampleSched1 (Cfg.init sampleInter)) 0 1 ∧
     ((Cfg.steps sampleSched1 (Cfg.init sampleInter)).gs[1]?.map (·.gid)) = some 1 ∧ (0 : Gid) < 1 := by
   refine ⟨by decide, Or.inl (by decide), by decide, by decide⟩
+
+example : YoungerOnly 0 [1] (Cfg.steps sampleSched1 (Cfg.init sampleInter)) := by
+  refine ⟨fun g hg => ?_, trivial⟩
+  have h1 : ((Cfg.steps sampleSched1 (Cfg.init sampleInter)).gs[1]?.map (·.gid)) = some 1 := by decide
+  rw [hg] at h1
+  have : g.gid = 1 := by simpa using h1
+  rw [this]; exact Nat.zero_lt_one
+example : Cfg.steps sampleSched1 (Cfg.init sampleInter) ≠ Cfg.init sampleInter := by
+  intro h
+  have : (Cfg.steps sampleSched1 (Cfg.init sampleInter)).gs.length = (Cfg.init sampleInter).gs.length := by rw [h]
+  revert this; decide
 
 /-! ## refinement: every big-step run is an execution of the small-step model (`Proofs/TlsRefine.lean`) -/
 
